@@ -41,14 +41,14 @@ Proof. intros HR; induction 1; constructor; eauto. Qed.
 
 (* ------------------------------------------------------------------------------------------ *)
 (* what one resolved upstream looks like, and when an element passes every pass *)
-Definition tuple_of (D : opts) (u : upstream0) (k : N) : upstream :=
+Definition tuple_of (O : oracle) (D : opts) (u : upstream0) (k : N) : upstream :=
   let o := effective_opts D (u0_route u) in
   MU (u0_service u) (rc_from (u0_route u)) (rc_to (u0_route u)) (rc_type (u0_route u)) k
      (o_groups o) (o_domains o) (o_addresses o) (o_skip_auth_regex o)
      (o_timeout o) (o_reset_deadline o) (o_flush_interval o)
      (o_header_overrides o) (o_inject_headers o)
      (o_tls_skip o) (o_preserve_host o) (o_skip_signing o) false false
-     (o_provider_slug o) (o_cookie_name o) false.
+     (o_provider_slug o) (o_cookie_name o) false (route_parts O (u0_route u) k).
 
 Definition has_key (tv : smap) (svc : str) : bool :=
   match map_get (svc ++ lit_signing_key) tv with Some _ => true | None => false end.
@@ -61,7 +61,7 @@ Definition elem_ok (O : oracle) (E : env) (u : upstream0) (k : N) : Prop :=
 
 Definition resolved_as (O : oracle) (E : env) (u0 : upstream0) (u : upstream) : Prop :=
   exists k, elem_ok O E u0 k /\
-            u = set_hmac (tuple_of (e_defaults E) u0 k) (has_key (e_tvars E) (u0_service u0)).
+            u = set_hmac (tuple_of O (e_defaults E) u0 k) (has_key (e_tvars E) (u0_service u0)).
 
 Lemma validate_ok u y : validate u = Ok y ->
   y = u /\ u0_service u <> [] /\ rc_from (u0_route u) <> [] /\ rc_to (u0_route u) <> [].
@@ -73,15 +73,15 @@ Proof.
 Qed.
 
 Lemma parse_options_ok O D u k x : parse_options O D (u, k) = Ok x ->
-  x = tuple_of D u k /\ forallb (re_ok O) (o_skip_auth_regex (effective_opts D (u0_route u))) = true.
+  x = tuple_of O D u k /\ forallb (re_ok O) (o_skip_auth_regex (effective_opts D (u0_route u))) = true.
 Proof.
   unfold parse_options; simpl.
   destruct (forallb (re_ok O) (o_skip_auth_regex (effective_opts D (u0_route u)))) eqn:F; [|discriminate].
   intros H; inversion H; subst. split; reflexivity.
 Qed.
 
-Lemma add_hmac_ok O tv D u k y : add_hmac O tv (tuple_of D u k) = Ok y ->
-  y = set_hmac (tuple_of D u k) (has_key tv (u0_service u)) /\
+Lemma add_hmac_ok O tv D u k y : add_hmac O tv (tuple_of O D u k) = Ok y ->
+  y = set_hmac (tuple_of O D u k) (has_key tv (u0_service u)) /\
   (forall spec, map_get (u0_service u ++ lit_signing_key) tv = Some spec -> hmac_spec_ok O spec = true).
 Proof.
   unfold add_hmac, has_key; simpl.
@@ -117,7 +117,7 @@ Proof.
   intros H. unfold load_resolved.
   set (cs := routes (e_cluster E) d) in *.
   assert (K : exists ks, Forall2 (fun u k => elem_ok O E u k) cs ks /\
-                         ups = map (fun uk => set_hmac (tuple_of (e_defaults E) (fst uk) (snd uk)) (has_key (e_tvars E) (u0_service (fst uk)))) (combine cs ks)).
+                         ups = map (fun uk => set_hmac (tuple_of O (e_defaults E) (fst uk) (snd uk)) (has_key (e_tvars E) (u0_service (fst uk)))) (combine cs ks)).
   { clear -H. induction H as [|u0 u cs ups [k [Hk ->]] _ [ks [F ->]]].
     - exists []; split; [constructor | reflexivity].
     - exists (k :: ks); split; [constructor; assumption | reflexivity]. }
@@ -131,7 +131,7 @@ Proof.
     rewrite Hr; reflexivity. }
   rewrite M2; simpl.
   assert (M3 : mapM (parse_options O (e_defaults E)) (combine cs ks) =
-               Ok (map (fun uk => tuple_of (e_defaults E) (fst uk) (snd uk)) (combine cs ks))).
+               Ok (map (fun uk => tuple_of O (e_defaults E) (fst uk) (snd uk)) (combine cs ks))).
   { apply mapM_ok_inv. clear -F. induction F as [|u k cs ks [_ [_ [_ [_ [Hre _]]]]] _ IH]; simpl; constructor; [|assumption].
     unfold parse_options; simpl. rewrite Hre. reflexivity. }
   rewrite M3; simpl.
@@ -197,7 +197,8 @@ Lemma fail_closed O E d ups :
   Forall (good O) ups /\
   Forall2 (fun u0 u => u_skip u = o_skip_auth_regex (effective_opts (e_defaults E) (u0_route u0)) /\
                        u_service u = u0_service u0 /\ u_from u = rc_from (u0_route u0) /\
-                       u_to u = rc_to (u0_route u0) /\ u_type u = rc_type (u0_route u0))
+                       u_to u = rc_to (u0_route u0) /\ u_type u = rc_type (u0_route u0) /\
+                       u_route u = route_parts O (u0_route u0) (u_kind u))
           (routes (e_cluster E) (subst_doc (e_tvars E) d)) ups.
 Proof.
   intros H. apply set_upstream_configs_ok in H as [L R]. unfold load_configs in L.
@@ -236,7 +237,7 @@ Qed.
 
 Lemma accepted_not_malformed O E u k :
   elem_ok O E u k ->
-  has_allow_rule (set_hmac (tuple_of (e_defaults E) u k) (has_key (e_tvars E) (u0_service u))) = true ->
+  has_allow_rule (set_hmac (tuple_of O (e_defaults E) u k) (has_key (e_tvars E) (u0_service u))) = true ->
   ~ malformed O E u.
 Proof.
   intros [Hs [Hf [Ht [Hr [Hre Hh]]]]] Hal Hbad.
